@@ -2,6 +2,8 @@
    (and the specification's) canonical answer on stdout.  Imports Model/Spec/Driver only. -/
 import CdnsVerif.Driver.Enc
 import CdnsVerif.Driver.Ts
+import CdnsVerif.Driver.Dec
+import CdnsVerif.Driver.Cdns
 open CdnsVerif.Driver
 
 def dispatch (line : String) : String :=
@@ -10,6 +12,8 @@ def dispatch (line : String) : String :=
   | "enc" :: rest => Enc.handle false (" ".intercalate rest)
   | "encv" :: rest => Enc.handle true (" ".intercalate rest)
   | "ts" :: rest => TsD.handle rest
+  | "dec" :: rest => Dec.handle rest
+  | "cdns" :: rest => CdnsD.handle rest
   | _ => "bad-request"
 
 partial def loop (h : IO.FS.Stream) (out : IO.FS.Stream) : IO Unit := do
